@@ -88,12 +88,18 @@ def gen_plan(run_seed: int, tier: str) -> dict:
             tag += 1
             ops.append({"op": "req", "t": r.randint(0, dur), "st": i, "type": "shb", "btp": "b", "dport": 99, "dpinfo": 0,
                         "payload": npl.rand_payload(r, tag, 60), "tc": 1, "hl": 1, "lt": None, "profile": "NO_SECURITY", "its_aid": 99})
+    # fault: a station restarts (all volatile security state lost: learnt tickets, inclusion timer, pending requests)
+    restarts = r.random() < 0.2
+    if restarts:
+        for _ in range(r.choice([1, 1, 2])):
+            ops.append({"op": "restart", "t": r.randint(dur // 10, dur * 9 // 10), "st": r.randrange(n)})
     ops.sort(key=lambda o: o["t"])
     cfg = {"t0_us": 1_767_225_600_000_000 + r.randrange(3600, 86_400_000) * 1000, "net_seed": r.getrandbits(32), "latency_us": [100, 1500],
            "fifo": not lossy, "topology": links, "run_limit_us": dur + 1_500_000, "fault_class": "lossy" if lossy else "none",
            "pki_seed": r.randrange(3), "psid_sets": [[36, 37, 638, 99]] * n, "joins": joins}
     if lossy:
-        cfg["rates"] = {"drop": r.choice([0.05, 0.2]), "dup": 0, "delay": r.choice([0, 0.1])}
+        cfg["rates"] = {"drop": r.choice([0.05, 0.2]), "dup": r.choice([0, 0, 0.1]), "delay": r.choice([0, 0.1])}
+        cfg["dup_max_us"] = 30_000
         cfg["delay_max_us"] = 20_000
     return {"engine": ENGINE, "property": ID, "config": cfg, "stations": stations, "ops": ops}
 
@@ -126,10 +132,15 @@ def judge(sim: SecNetSim):
     last_cert: dict[int, int] = {}             # sender -> time of last certificate inclusion in a CAM/VAM
     first_camlike: dict[int, bool] = {}
     camlike_tx: dict[int, list] = {}
+    gen_tx: dict[int, int] = {}
     for tx in sim.sectx:
         m, s, t = tx["m"], tx["st"], tx["t"]
         if tx["injected"] or not m.ok and m.header is None:
             continue
+        if gen_tx.get(s, tx["gen"]) != tx["gen"]:
+            last_cert.pop(s, None)          # restarted: the new instance has never included its certificate
+            sim.probe("first-message-after-restart")
+        gen_tx[s] = tx["gen"]
         hdr = m.header or {}
         psid = m.psid
         prof = "CAM" if psid == 36 else "VAM" if psid == 638 else "DENM" if psid == 37 else "other"
@@ -179,7 +190,16 @@ def judge(sim: SecNetSim):
     msg_index = {tx["msg"]: tx for tx in sim.sectx if not tx["injected"]}
     events = sorted([("rx", v["ev"], v) for v in sim.verifs] + [("tx", tx["ev"], tx) for tx in sim.sectx if not tx["injected"]], key=lambda e: (e[1], e[0] == "rx"))
     joins = plan["config"].get("joins", {})
+    gen_ev: dict[int, int] = {}
     for kind, _, e in events:
+        st_ = e["st"]
+        if gen_ev.get(st_, e["gen"]) != e["gen"]:
+            # the station restarted: it has forgotten every learnt ticket and every exchange it was part of
+            known[st_] = set(plan["stations"][st_].get("preload", []))
+            for key_ in [k_ for k_ in pending if st_ in k_]:
+                del pending[key_]
+            sim.probe("restart-forgot-tickets")
+        gen_ev[st_] = e["gen"]
         if kind == "tx":
             s, m = e["st"], e["m"]
             if e.get("prof") not in ("CAM", "VAM"):
@@ -256,7 +276,7 @@ def judge(sim: SecNetSim):
                 sim.probe("accepted:digest-unknown?")     # would be C03's business
             else:
                 sim.probe("rejected:digest-unknown")
-                if (rcv, snd) not in pending and not lossy and rcv in camlike_tx:
+                if (rcv, snd) not in pending and rcv in camlike_tx:
                     pending[(rcv, snd)] = {"phase": "rejected", "t": v["t"]}
             trace.append((prof, "digest", "unknown:" + str(v["report"])))
     return trace
